@@ -11,6 +11,7 @@ func TestMain(m *testing.M) { harn.Main(m) }
 func init() {
 	harn.Register("C08_Session", RunC08)
 	harn.Register("C13_Release", RunC13)
+	harn.Register("C20_Client", RunC20)
 }
 
 func TestReplay(t *testing.T)  { harn.Replay(t) }
@@ -18,3 +19,4 @@ func TestRegress(t *testing.T) { harn.Regress(t) }
 
 func TestC08_Session(t *testing.T) { harn.Check(t, "C08_Session", GenC08, RunC08) }
 func TestC13_Release(t *testing.T) { harn.Check(t, "C13_Release", GenC13, RunC13) }
+func TestC20_Client(t *testing.T)  { harn.Check(t, "C20_Client", GenClientCase, RunC20) }
